@@ -96,6 +96,7 @@ type Exec struct {
 	lastModelFor *Term
 	mapOrderFork bool
 	capFork      bool
+	lastDiff     string
 	tier         int
 	inputs       []inputDesc
 	choiceLog    []choiceRec
